@@ -86,6 +86,9 @@ class System(SharedRegistryObject):
     @property
     def members(self):
         d = self._REGISTRY._groups
+        # Groups memoize their own members and invalidate them on edits; a system
+        # has no back reference from its groups, so it always recomputes the union.
+        self._computed_members = None
         if self._computed_members is None:
             tmp: set[str] = set()
 
